@@ -168,6 +168,12 @@ func (p *provider) watchChanges(ctx context.Context, rsf RuleSetFetcher) error {
 		if errors.Is(err, heimdall.ErrInternal) || errors.Is(err, heimdall.ErrConfiguration) {
 			return err
 		}
+
+		// in case of network issues, like dns errors, timeouts and alike, the rule sets
+		// previously received from the bucket are preserved
+		if errors.Is(err, heimdall.ErrCommunication) || errors.Is(err, heimdall.ErrCommunicationTimeout) {
+			return err
+		}
 	}
 
 	state := p.getBucketState(rsf.ID())
@@ -198,7 +204,7 @@ func (p *provider) ruleSetsUpdated(ruleSets []*rule_config.RuleSet, state Bucket
 	for _, ID := range removedIDs {
 		conf := &rule_config.RuleSet{
 			MetaData: rule_config.MetaData{
-				Source:  "blob:" + ID,
+				Source:  ID,
 				ModTime: time.Now(),
 			},
 		}
